@@ -127,14 +127,14 @@ def model_histories(ctx):
         model.close()
 
 
-def header_histories(ctx, n_quick=30, n_thorough=600):
+def header_histories(ctx, n_quick=30, n_thorough=600, kinds=('regular', 'irregular', '2d', 'irregular'), tag='c15-headers'):
     """K: histories of header / tracefield reads and `clear_variant_headers` on one reader vs the Lean header-read state
     machine (Model/HeaderReads): per call the outcome class, the digest of the values and the range reads issued"""
-    rng = gen.rng_for(ctx.seed, 'c15-headers')
+    rng = gen.rng_for(ctx.seed, tag)
     model = core.Model()
     try:
         for hnum in range(n_quick if ctx.quick else n_thorough):
-            kind = ('regular', 'irregular', '2d', 'irregular')[hnum % 4]
+            kind = kinds[hnum % len(kinds)]
             p = ctx.path('hh.sgz')
             fd = hdrcorr.make_file(p, rng, kind)
             T = fd['grid'] - len(fd['holes'])
